@@ -322,9 +322,10 @@ func firstN(s string, n int) string {
 }
 
 type failure struct {
-	def int
-	key string
-	msg string
+	def    int
+	key    string
+	msg    string
+	detail string
 }
 
 func runPart2(c Case) vt.Verdict {
@@ -420,12 +421,16 @@ func runPart2(c Case) vt.Verdict {
 			classes = append(classes, "part2:skipped-noncompiling")
 			continue
 		}
+		if e := errs[base+"drv"]; e != "" && (strings.Contains(e, "imported and not used") || strings.Contains(e, "declared and not used") || strings.Contains(e, "syntax error") || strings.HasPrefix(e, gen.LinkFailed)) {
+			// the driver's own bookkeeping is wrong: a harness bug, not a finding
+			return harness(fmt.Errorf("the generated driver is malformed: %s [definition: %s]", firstN(e, 500), gen.DefJSON(c.Defs[i])))
+		}
 		if e := errs[base+"drv"]; e != "" {
 			// the generated package compiles but the driver, written against the
 			// documented shape of the generated API (server interface,
 			// QuorumSpec, stub signatures), does not: the API does not match the
 			// declared call types and options
-			fails = append(fails, failure{i, "C17/binding/api-mismatch", "the driver written against the documented generated API does not compile: " + firstN(e, 700) + " [definition: " + gen.DefJSON(c.Defs[i]) + "]"})
+			fails = append(fails, failure{i, "C17/binding/api-mismatch", "the driver written against the documented generated API does not compile: " + firstN(e, 700) + " [definition: " + gen.DefJSON(c.Defs[i]) + "]", ""})
 			continue
 		}
 		wg.Add(1)
@@ -463,11 +468,42 @@ func runPart2(c Case) vt.Verdict {
 			classes = append(classes, "part2:nontrivial-service")
 		}
 		if r.crash != "" {
-			fails = append(fails, failure{i, r.crashKey, "the driver process crashed: " + firstN(r.crash, 500) + " [definition: " + gen.DefJSON(c.Defs[i]) + "]"})
+			fails = append(fails, failure{i, r.crashKey, "the driver process crashed in library or generated code (" + strings.TrimPrefix(r.crashKey, "C17/binding/driver-crash/") + ") [definition: " + gen.DefJSON(c.Defs[i]) + "]", r.crash})
 			continue
 		}
-		for _, b := range gen.CheckDriverLog(it.plan, r.log) {
-			fails = append(fails, failure{i, b.Key, b.Msg + " [definition: " + gen.DefJSON(c.Defs[i]) + "]"})
+		bs := gen.CheckDriverLog(it.plan, r.log)
+		// clauses that depend on a (generous) wall-clock bound are confirmed by
+		// a second run of the same driver before they count: wall-clock time
+		// is never a correctness signal on a single observation
+		timeBound := false
+		for _, b := range bs {
+			if strings.HasSuffix(b.Key, "/timeout") || strings.HasSuffix(b.Key, "/handler-not-run") || strings.HasSuffix(b.Key, "/not-called") {
+				timeBound = true
+			}
+		}
+		if timeBound {
+			r2 := runDriver(filepath.Join(s.Dir, "bin", it.pkg+"drv"))
+			if r2.harness == "" && r2.crash == "" {
+				bs2 := gen.CheckDriverLog(it.plan, r2.log)
+				confirmed := map[string]bool{}
+				for _, b := range bs2 {
+					confirmed[b.Key] = true
+				}
+				var keep []gen.Binding
+				for _, b := range bs {
+					if confirmed[b.Key] {
+						keep = append(keep, b)
+					}
+				}
+				if len(keep) < len(bs) {
+					classes = append(classes, "part2:time-bound-clause-not-confirmed")
+				}
+				bs = keep
+				runs[i] = r2
+			}
+		}
+		for _, b := range bs {
+			fails = append(fails, failure{i, b.Key, b.Msg + " [definition: " + gen.DefJSON(c.Defs[i]) + "]", b.Detail})
 		}
 	}
 	if len(fails) == 0 {
@@ -499,7 +535,7 @@ func runPart2(c Case) vt.Verdict {
 		return vt.Verdict{OK: true, NonTrivial: false, Classes: classes}
 	}
 	return vt.Verdict{OK: false, Key: f.key, Msg: fmt.Sprintf("definition %d: %s", f.def, f.msg), Classes: classes,
-		History: map[string]any{"failing_keys": allKeys, "log": runs[f.def].log}}
+		History: map[string]any{"failing_keys": allKeys, "detail": f.detail, "log": runs[f.def].log}}
 }
 
 // ---------------------------------------------------------------- common
